@@ -80,7 +80,7 @@ Lemma arch_src_createFile_unchanged : gen_src_createFile = model_src_createFile.
 Proof. reflexivity. Qed.
 
 Definition model_src_zipDir : string :=
-  "func(dir string, w io.Writer) error { ar := zip.NewWriter(w) walk := func(p string, info os.FileInfo, err error) error { rel, err := filepath.Rel(dir, p) if err != nil { return err } mod := info.Mode() t := info.ModTime() if info.IsDir() { h := &zip.FileHeader{Name: rel + ""/""} h.SetMode(mod) h.SetModTime(t) _, err := ar.CreateHeader(h) return err } fin, err := os.Open(p) if err != nil { return err } defer fin.Close() h := &zip.FileHeader{Name: rel} h.SetMode(mod) h.SetModTime(t) w, err := ar.CreateHeader(h) if err != nil { return err } if _, err = io.Copy(w, fin); err != nil { return err } return fin.Close() } if err := filepath.Walk(dir, walk); err != nil { return err } return ar.Close() }".
+  "func(dir string, w io.Writer) error { ar := zip.NewWriter(w) walk := func(p string, info os.FileInfo, err error) error { if err != nil { return err } rel, err := filepath.Rel(dir, p) if err != nil { return err } mod := info.Mode() t := info.ModTime() if info.IsDir() { h := &zip.FileHeader{Name: rel + ""/""} h.SetMode(mod) h.SetModTime(t) _, err := ar.CreateHeader(h) return err } fin, err := os.Open(p) if err != nil { return err } defer fin.Close() h := &zip.FileHeader{Name: rel} h.SetMode(mod) h.SetModTime(t) w, err := ar.CreateHeader(h) if err != nil { return err } if _, err = io.Copy(w, fin); err != nil { return err } return fin.Close() } if err := filepath.Walk(dir, walk); err != nil { return err } return ar.Close() }".
 
 Lemma arch_src_zipDir_unchanged : gen_src_zipDir = model_src_zipDir.
 Proof. reflexivity. Qed.
